@@ -10,15 +10,15 @@
 #define PIPER ((nni_pipe *) g_reg)
 #define PREF(p) SC_AINT((p)->p_refcnt.rc_cnt)
 nng_err nni_pipe_find(nni_pipe **pp, uint32_t id)
-__CPROVER_requires(FRESH(pp, *pp) && SC_MAP_SHAPE(pipes) && VP_NO_LOCK_HELD)
+__CPROVER_requires(FRESH(pp, *pp) && VP_NO_LOCK_HELD)
 __CPROVER_requires(g_reg == NULL || FRESH(g_reg, nni_pipe))
 __CPROVER_requires(g_reg != NULL ==> ((int) g_u32 == PREF(PIPER) && PREF(PIPER) >= 1 && PREF(PIPER) < 0x7fffffff))
-__CPROVER_assigns(*pp, g_found, VP_SYNC_GHOSTS)
+__CPROVER_assigns(*pp, g_idg_calls, g_idg_map, g_idg_id, VP_SYNC_GHOSTS)
 __CPROVER_assigns(g_reg != NULL: PIPER->p_refcnt.rc_cnt)
 __CPROVER_ensures(VP_NO_LOCK_HELD)
 __CPROVER_ensures(RV == NNG_OK || RV == NNG_ENOENT)
-__CPROVER_ensures((RV == NNG_OK) == (g_found != NOTFOUND))
-__CPROVER_ensures(RV == NNG_OK ==> (*pp == PIPER && pipes.id_entries[g_found].key == id && pipes.id_entries[g_found].val == (void *) *pp && PREF(PIPER) == (int) g_u32 + 1))
+__CPROVER_ensures((RV == NNG_OK) == (g_reg != NULL))
+__CPROVER_ensures(RV == NNG_OK ==> (*pp == PIPER && g_idg_calls == OLD(g_idg_calls) + 1 && g_idg_map == &pipes && g_idg_id == (uint64_t) id && PREF(PIPER) == (int) g_u32 + 1))
 __CPROVER_ensures(RV != NNG_OK ==> (*pp == OLD(*pp) && (g_reg != NULL ==> PREF(PIPER) == (int) g_u32)))
 COVER(RV == NNG_OK) COVER(RV == NNG_ENOENT)
 ;
@@ -26,29 +26,29 @@ COVER(RV == NNG_OK) COVER(RV == NNG_ENOENT)
 /* dialers / listeners: a closed endpoint has left the map (nni_dialer_close removes the id under the same lock) */
 #define DIALR ((nni_dialer *) g_reg)
 int nni_dialer_find(nni_dialer **dp, uint32_t id)
-__CPROVER_requires(FRESH(dp, *dp) && SC_MAP_SHAPE(dialers) && VP_NO_LOCK_HELD)
+__CPROVER_requires(FRESH(dp, *dp) && VP_NO_LOCK_HELD)
 __CPROVER_requires(g_reg == NULL || FRESH(g_reg, nni_dialer))
 __CPROVER_requires(g_reg != NULL ==> ((int) g_u32 == DIALR->d_ref && DIALR->d_ref >= 1 && DIALR->d_ref < 0x7fffffff))
-__CPROVER_assigns(*dp, g_found, VP_SYNC_GHOSTS)
+__CPROVER_assigns(*dp, g_idg_calls, g_idg_map, g_idg_id, VP_SYNC_GHOSTS)
 __CPROVER_assigns(g_reg != NULL: DIALR->d_ref)
 __CPROVER_ensures(VP_NO_LOCK_HELD)
 __CPROVER_ensures(RV == 0 || RV == NNG_ENOENT)
-__CPROVER_ensures((RV == 0) == (g_found != NOTFOUND))
-__CPROVER_ensures(RV == 0 ==> (*dp == DIALR && dialers.id_entries[g_found].key == id && dialers.id_entries[g_found].val == (void *) *dp && DIALR->d_ref == (int) g_u32 + 1))
+__CPROVER_ensures((RV == 0) == (g_reg != NULL))
+__CPROVER_ensures(RV == 0 ==> (*dp == DIALR && g_idg_calls == OLD(g_idg_calls) + 1 && g_idg_map == &dialers && g_idg_id == (uint64_t) id && DIALR->d_ref == (int) g_u32 + 1))
 __CPROVER_ensures(RV != 0 ==> (*dp == OLD(*dp) && (g_reg != NULL ==> DIALR->d_ref == (int) g_u32)))
 COVER(RV == 0) COVER(RV == NNG_ENOENT)
 ;
 #define LISTR ((nni_listener *) g_reg)
 int nni_listener_find(nni_listener **lp, uint32_t id)
-__CPROVER_requires(FRESH(lp, *lp) && SC_MAP_SHAPE(listeners) && VP_NO_LOCK_HELD)
+__CPROVER_requires(FRESH(lp, *lp) && VP_NO_LOCK_HELD)
 __CPROVER_requires(g_reg == NULL || FRESH(g_reg, nni_listener))
 __CPROVER_requires(g_reg != NULL ==> ((int) g_u32 == LISTR->l_ref && LISTR->l_ref >= 1 && LISTR->l_ref < 0x7fffffff))
-__CPROVER_assigns(*lp, g_found, VP_SYNC_GHOSTS)
+__CPROVER_assigns(*lp, g_idg_calls, g_idg_map, g_idg_id, VP_SYNC_GHOSTS)
 __CPROVER_assigns(g_reg != NULL: LISTR->l_ref)
 __CPROVER_ensures(VP_NO_LOCK_HELD)
 __CPROVER_ensures(RV == 0 || RV == NNG_ENOENT)
-__CPROVER_ensures((RV == 0) == (g_found != NOTFOUND))
-__CPROVER_ensures(RV == 0 ==> (*lp == LISTR && listeners.id_entries[g_found].key == id && listeners.id_entries[g_found].val == (void *) *lp && LISTR->l_ref == (int) g_u32 + 1))
+__CPROVER_ensures((RV == 0) == (g_reg != NULL))
+__CPROVER_ensures(RV == 0 ==> (*lp == LISTR && g_idg_calls == OLD(g_idg_calls) + 1 && g_idg_map == &listeners && g_idg_id == (uint64_t) id && LISTR->l_ref == (int) g_u32 + 1))
 __CPROVER_ensures(RV != 0 ==> (*lp == OLD(*lp) && (g_reg != NULL ==> LISTR->l_ref == (int) g_u32)))
 COVER(RV == 0) COVER(RV == NNG_ENOENT)
 ;
@@ -56,8 +56,7 @@ COVER(RV == 0) COVER(RV == NNG_ENOENT)
 
 /* ================================================================ pipe_create
  * C18: the pipe's id is the one the allocator issued from `pipes` (range
- * 1..0x7fffffff fixed by the static initialiser), registered for exactly this
- * pipe.  C20 / C03: when the block cannot be allocated nothing happened; any
+ * 1..0x7fffffff fixed by the static initialiser) for exactly this pipe.  C20 / C03: when the block cannot be allocated nothing happened; any
  * later failure (id, transport p_init, protocol pipe_init) closes the pipe and
  * hands it to the reaper exactly once, with exactly the reaper's reference
  * left -- pipe_reap (modules/endpoint) then removes the id (if one was issued:
@@ -69,7 +68,7 @@ COVER(RV == 0) COVER(RV == NNG_ENOENT)
 #define CP ((nni_pipe *) g_tinit_pipe)
 #define PC_CREATED (g_tinit_calls == OLD(g_tinit_calls) + 1)
 static int pipe_create(nni_pipe **pp, nni_sock *sock, nni_sp_tran *tran, nni_dialer *d, nni_listener *l)
-__CPROVER_requires(FRESH(pp, *pp) && FRESH(sock, SOCKT) && FRESH(tran, nni_sp_tran) && FRESH(tran->tran_pipe, nni_sp_pipe_ops) && SC_MAP_PRE(pipes) && VP_NO_LOCK_HELD)
+__CPROVER_requires(FRESH(pp, *pp) && FRESH(sock, SOCKT) && FRESH(tran, nni_sp_tran) && FRESH(tran->tran_pipe, nni_sp_pipe_ops) && VP_NO_LOCK_HELD)
 __CPROVER_requires(tran->tran_pipe->p_size == vp_tran_pipe_size && tran->tran_pipe->p_init == vp_tran_pipe_init && sock->s_pipe_ops.pipe_init == vp_proto_pipe_init \
     && sock->s_pipe_ops.pipe_size < SC_PRIV_MAX && g_tsize < SC_PRIV_MAX)
 /* exactly one of dialer / listener (the callers nni_pipe_alloc_dialer / _listener) */
@@ -77,18 +76,16 @@ __CPROVER_requires(g_sole_c ? (l == NULL && FRESH(d, nni_dialer)) : (d == NULL &
 __CPROVER_requires(sock->s_pipes.ll_offset == offsetof(nni_pipe, p_sock_node) && TAIL_PRE(sock->s_pipes, g_sole_a))
 __CPROVER_requires(d != NULL ==> (d->d_pipes.ll_offset == offsetof(nni_pipe, p_ep_node) && TAIL_PRE(d->d_pipes, g_sole_b)))
 __CPROVER_requires(l != NULL ==> (l->l_pipes.ll_offset == offsetof(nni_pipe, p_ep_node) && TAIL_PRE(l->l_pipes, g_sole_b)))
-__CPROVER_assigns(*pp, sock->s_pipes.ll_head.ln_prev, sock->s_pipes.ll_head.ln_prev->ln_next, SC_MAP_TARGETS(pipes), VP_SYNC_GHOSTS)
+__CPROVER_assigns(*pp, sock->s_pipes.ll_head.ln_prev, sock->s_pipes.ll_head.ln_prev->ln_next, pipes.id_count, G_IDA, VP_HEAP_GHOSTS, VP_SYNC_GHOSTS)
 __CPROVER_assigns(g_tinit_calls, g_tinit_data, g_tinit_pipe, g_pinit_calls, g_pinit_data, g_pinit_pipe, g_pinit_sdata, g_reap_calls, g_reap_list, g_reap_item)
 __CPROVER_assigns(d != NULL: d->d_pipes.ll_head.ln_prev, d->d_pipes.ll_head.ln_prev->ln_next)
 __CPROVER_assigns(l != NULL: l->l_pipes.ll_head.ln_prev, l->l_pipes.ll_head.ln_prev->ln_next)
-__CPROVER_assigns(pipes.id_cap != 0: __CPROVER_object_whole(pipes.id_entries))
-__CPROVER_frees(pipes.id_entries)
 __CPROVER_ensures(VP_NO_LOCK_HELD)
 /* the block could not be allocated: NNG_ENOMEM, nothing happened */
 __CPROVER_ensures(!PC_CREATED ==> (RV == NNG_ENOMEM && *pp == OLD(*pp) && g_tinit_calls == OLD(g_tinit_calls) && g_pinit_calls == OLD(g_pinit_calls) && g_reap_calls == OLD(g_reap_calls) \
-    && VP_HEAP_DELTA(0, 0) && SC_MAP_SAME(pipes) && sock->s_pipes.ll_head.ln_prev == OLD(sock->s_pipes.ll_head.ln_prev)))
+    && VP_HEAP_DELTA(0, 0) && g_ida_calls == OLD(g_ida_calls) && sock->s_pipes.ll_head.ln_prev == OLD(sock->s_pipes.ll_head.ln_prev)))
 /* otherwise a pipe CP exists: sized block, both initialisers ran once on their areas inside the block, linked to socket and endpoint */
-__CPROVER_ensures(PC_CREATED ==> (CP->p_size == PSZ(sock) && __CPROVER_OBJECT_SIZE(CP) == PSZ(sock) && __CPROVER_POINTER_OFFSET(CP) == 0 && SC_HEAP(pipes, 1, 0)))
+__CPROVER_ensures(PC_CREATED ==> (CP->p_size == PSZ(sock) && __CPROVER_OBJECT_SIZE(CP) == PSZ(sock) && __CPROVER_POINTER_OFFSET(CP) == 0 && VP_HEAP_DELTA(1, 0) && g_ida_calls == OLD(g_ida_calls) + 1 && g_ida_map == &pipes && g_ida_val == (void *) CP))
 __CPROVER_ensures(PC_CREATED ==> (g_pinit_calls == OLD(g_pinit_calls) + 1 && g_pinit_pipe == CP && g_pinit_sdata == sock->s_data \
     && g_pinit_data == (void *) ((uint8_t *) CP + NNI_ALIGN_UP(sizeof(nni_pipe))) && g_tinit_data == (void *) ((uint8_t *) g_pinit_data + NNI_ALIGN_UP(sock->s_pipe_ops.pipe_size)) \
     && CP->p_proto_data == g_pinit_data && CP->p_tran_data == g_tinit_data))
@@ -97,15 +94,15 @@ __CPROVER_ensures(PC_CREATED ==> (CP->p_sock == sock && CP->p_dialer == d && CP-
 __CPROVER_ensures((PC_CREATED && d != NULL) ==> APPENDED(d->d_pipes, CP->p_ep_node))
 __CPROVER_ensures((PC_CREATED && l != NULL) ==> APPENDED(l->l_pipes, CP->p_ep_node))
 /* the id: none (0, map untouched) when the allocator refused, otherwise the issued one, registered for exactly this pipe, in range */
-__CPROVER_ensures((PC_CREATED && CP->p_id == 0) ==> (RV == NNG_ENOMEM && IDM_ARRAY_KEPT(&pipes) && pipes.id_count == OLD(pipes.id_count)))
-__CPROVER_ensures((PC_CREATED && CP->p_id != 0) ==> (SC_MAP_HAS(pipes, CP->p_id, CP) && SC_ID_OK(CP->p_id)))
+__CPROVER_ensures((PC_CREATED && g_ida_fail) ==> (RV == NNG_ENOMEM && CP->p_id == 0))
+__CPROVER_ensures((PC_CREATED && !g_ida_fail) ==> (CP->p_id == g_ida_issued && SC_ID_OK(CP->p_id)))
 /* success iff all three steps succeeded: handed out open, with the caller's and the socket's reference */
 __CPROVER_ensures(RV == 0 ==> (PC_CREATED && *pp == CP && CP->p_id != 0 && g_tinit_rv == 0 && g_pinit_rv == 0 && PREF(CP) == 2 && !SC_FLAG(CP->p_closed) && g_reap_calls == OLD(g_reap_calls)))
 __CPROVER_ensures((PC_CREATED && CP->p_id != 0 && g_tinit_rv == 0 && g_pinit_rv == 0) ==> RV == 0)
 /* failure after creation: first error reported; closed, handed to the reaper exactly once, only the reaper's reference left; nothing handed out */
 __CPROVER_ensures((PC_CREATED && RV != 0) ==> (*pp == OLD(*pp) && SC_FLAG(CP->p_closed) && PREF(CP) == 1 && g_reap_calls == OLD(g_reap_calls) + 1 && g_reap_item == (void *) CP && g_reap_list == &pipe_reap_list))
 __CPROVER_ensures((PC_CREATED && RV != 0 && CP->p_id != 0) ==> RV == (g_tinit_rv != 0 ? g_tinit_rv : g_pinit_rv))
-COVER(RV == 0) COVER(!PC_CREATED) COVER(PC_CREATED && CP->p_id == 0) COVER(PC_CREATED && RV != 0 && CP->p_id != 0 && g_tinit_rv == 0) COVER(RV == 0 && SC_SWAPPED(pipes)) COVER(RV == 0 && l != NULL)
+COVER(RV == 0) COVER(!PC_CREATED) COVER(PC_CREATED && CP->p_id == 0) COVER(PC_CREATED && RV != 0 && CP->p_id != 0 && g_tinit_rv == 0) COVER(RV == 0 && l != NULL)
 ;
 
 /* ====================================================== pipe hold / release */
